@@ -22,7 +22,7 @@ type OrVal struct {
 }
 
 type OrOp struct {
-	Kind    string `json:"kind"` // price | holders | block | power | unbond | rebond | alien
+	Kind    string `json:"kind"` // price | holders | block | power | unbond | rebond | remove | alien
 	Val     int    `json:"val,omitempty"`
 	Epoch   int    `json:"epoch,omitempty"`   // -1 stale, 0 current, +1 future
 	Variant int    `json:"variant,omitempty"` // value pattern
@@ -63,6 +63,8 @@ func genOrCase(t *rapid.T) interface{} {
 			op.Kind = "unbond"
 		case k < 69:
 			op.Kind = "rebond"
+		case k < 71:
+			op.Kind = "remove" // the validator leaves the staking store altogether (finished unbonding, no delegations)
 		default:
 			op.Kind = "block"
 		}
@@ -337,7 +339,23 @@ func runOrCaseMode(ci interface{}, rec *pbt.Rec, blockers bool) *pbt.Failure {
 				}
 			})
 		case "rebond":
-			h.QueueStaking(func(s *sim.SimStaking) { s.Vals[v].Bonded, s.Vals[v].Unbonding = true, false })
+			h.QueueStaking(func(s *sim.SimStaking) {
+				if !s.Vals[v].Removed {
+					s.Vals[v].Bonded, s.Vals[v].Unbonding = true, false
+				}
+			})
+		case "remove":
+			h.QueueStaking(func(s *sim.SimStaking) {
+				cnt := 0
+				for _, x := range s.Vals {
+					if x.Bonded && !x.Removed {
+						cnt++
+					}
+				}
+				if cnt > 1 || !s.Vals[v].Bonded {
+					s.Vals[v].Bonded, s.Vals[v].Unbonding, s.Vals[v].Removed = false, false, true
+				}
+			})
 		case "alien":
 			pB, hB, eB := stateOf()
 			before := h.StateHash()
@@ -405,6 +423,12 @@ func runOrCaseMode(ci interface{}, rec *pbt.Rec, blockers bool) *pbt.Failure {
 				}
 			} else {
 				hl := orHolders(op.Variant)
+				if op.Variant == 2 && v%2 == 1 {
+					// the same holders in another order: the same list as far as the tally is concerned
+					for i, j := 0, len(hl.List)-1; i < j; i, j = i+1, j-1 {
+						hl.List[i], hl.List[j] = hl.List[j], hl.List[i]
+					}
+				}
 				if c.Hostile {
 					switch op.Variant {
 					case 0:
